@@ -225,6 +225,14 @@ def o_entry(inp):
         lib = Library([e])
     else:
         lib = Library([Entry("article", "k", [Field(k, v, i + 1) for i, (k, v) in enumerate(fields)], 0, "raw")])
+    import zlib
+
+    macro = next((c for c in (strip1(v)[0] for _, v in fields if isinstance(v, str)) if c and c.strip() == c), None)
+    if macro is not None and zlib.crc32(repr(fields).encode()) % 3 == 0:
+        # the library defines a @string whose key is exactly the content of one of the fields: enclosing is decided by the
+        # value and the options, not by what else the library holds
+        lib.add(String(macro, '"macro text"', 90, "@string{...}"))
+        cls.append("content-equals-a-macro-name")
     rem = libgen.maybe_preuse(RemoveEnclosingMiddleware(allow_inplace_modification=inp["inplace"]), repr(fields), same=lib).transform(lib)
     ent = rem.blocks[0]
     if not isinstance(ent, Entry) or len(ent.fields) != len(fields):
